@@ -58,6 +58,12 @@ def tableOk (adjust bytesLen : Nat) (tab : List Dec) : Nat → Bool
        | .invalid => decide (p + adjust ≤ bytesLen)
        | .exhausted => true) && tableOk adjust bytesLen rest (p + 1)
 
+/-- the oracle a table denotes: `tab[p]`, exhausted beyond the table (this is `C20.Case.dec`) -/
+def decOfTable (tab : List Dec) (p : Nat) : Dec :=
+  match tab[p]? with
+  | some d => d
+  | none => .exhausted
+
 /-- `remaining_bytes.iter().take(ADJUST_BY_AFTER_ERROR)` with `remaining_bytes = &bytes[offset..]`,
 mod.rs:387-399: the bytes printed in the row of an undecodable instruction -/
 def shown (bytes : List UInt8) (adjust off : Nat) : List UInt8 := (bytes.drop off).take adjust
